@@ -14,9 +14,7 @@ RULE = ("every public function of every module (enumerated from the regenerated 
 TRUSTED = ["translate/effects_fp.py: syntactic footprint analysis (aliasing, in-place operations, global state, call-graph closure) -- cross-checked here in "
            "both directions", "recipes cover the functions listed in the evidence; those not exercised are listed with the reason"]
 ASSUMPTIONS = ["a semantics 'consistent with the footprint' is assumed by the compositional theorems; consistency is what this dynamic check samples"]
-KNOWN = {"aotools.image_processing.centroiders.correlation_centroid", "aotools.image_processing.centroiders.centre_of_gravity",
-         "aotools.image_processing.centroiders.brightest_pixel", "aotools.image_processing.contrast.rms_contrast",
-         "aotools.opticalpropagation.angularSpectrum", "aotools.turbulence.profile_compression.optimal_grouping"}
+KNOWN = {"aotools.turbulence.profile_compression.optimal_grouping"}
 
 
 def table():
